@@ -73,13 +73,39 @@ def run_one(prop, base_seed, i, want_sample=False):
     # cold-interpreter cross-check of the oracle assumption, once per run index multiple
     if i % 97 == 0:
         summary["cold"] = cold_crosscheck(W, ops, log)
-    for v in mine:
-        rep = minimise(W, prop, cfg, ops, v)
-        if rep is not None:
-            rep.update(seed=base_seed, run=i, engine="histsim")
-            summary["violation"] = rep
-            break
+    if mine:
+        judge(W, prop, cfg, ops, viols, summary, base_seed, i)
     return summary
+
+
+def judge(W, prop, cfg, ops, viols, summary, base_seed, i):
+    """Minimise the run's violations class by class.  A minimised violation
+    that matches an entry of known_findings.json is recorded as such, its
+    trigger (the corrupting mutate ops) is peeled off the *full* history and
+    the run is judged again, so a listed finding never masks another one."""
+    from . import report
+    known = report.load_known()
+    summary["known"] = []
+    cur = ops
+    skip = set()
+    for _ in range(6):
+        mine = [v for v in viols if prop in histsim.ORACLE_PROPS.get(v.oracle, {}) and v.oracle not in skip]
+        if not mine:
+            return
+        v = mine[0]
+        rep = minimise(W, prop, cfg, cur, v)
+        if rep is None:
+            skip.add(v.oracle)      # does not speak against this property
+            continue
+        rep.update(seed=base_seed, run=i, engine="histsim")
+        k = report.match_known(known, rep)
+        if k is None:
+            summary["violation"] = rep
+            return
+        summary["known"].append({"id": k["id"], "what": k["what"], "class": rep["violation_class"]})
+        drop = {op["id"] for op in rep["ops"] if op["op"] == "mutate"}
+        cur = [op for op in cur if op["id"] not in drop]
+        _, viols = W.run_ops(cur, cfg["passive"])
 
 
 def _short(r):
